@@ -9,7 +9,7 @@ namespace TdModel.C27
 every live (counted) connection has exactly one". -/
 structure HInv (m : Nat) (s : State) : Prop where
   maxc : s.max = m
-  tot : s.total = liveCount s
+  tot : s.total = liveCount s + nReserved s
   lim : s.max ≠ 0 → s.total ≤ s.max
   one : ∀ c, holders s c ≤ 1
   live : ∀ (c : Nat) (x : Conn), s.conns[c]? = some x → x.dead = false → holders s c = 1
@@ -32,6 +32,7 @@ holders and keeps it for live connections preserves the invariant. -/
 theorem hinv_of_le {m : Nat} {s s' : State} (hI : HInv m s)
     (hmax : s'.max = s.max) (htot : s'.total = s.total)
     (hconns : s'.conns.map (·.dead) = s.conns.map (·.dead))
+    (hres : nReserved s' = nReserved s)
     (hh : ∀ c, holders s' c ≤ holders s c)
     (hl : ∀ (c : Nat) (x : Conn), s.conns[c]? = some x → x.dead = false → holders s' c = holders s c) :
     HInv m s' := by
@@ -39,7 +40,7 @@ theorem hinv_of_le {m : Nat} {s s' : State} (hI : HInv m s)
     have := congrArg List.length hconns
     simpa using this
   refine ⟨by rw [hmax]; exact hI.maxc, ?_, ?_, ?_, ?_, ?_⟩
-  · rw [htot, hI.tot, liveCount_eq_map, liveCount_eq_map, hconns]
+  · rw [htot, hI.tot, liveCount_eq_map, liveCount_eq_map, hconns, hres]
   · rw [hmax, htot]; exact hI.lim
   · intro c; exact Nat.le_trans (hh c) (hI.one c)
   · intro c x' hx' hd
@@ -51,6 +52,13 @@ theorem hinv_of_le {m : Nat} {s s' : State} (hI : HInv m s)
     have := hh c
     omega
 
+
+/-- Effect of moving caller `i` on the number of reserved slots. -/
+theorem nReserved_setPc (t : State) (i : Nat) (x : Caller) (p : PC) (h : t.callers[i]? = some x) :
+    nReserved (setPc t i x p) + (if x.pc = .reserved then 1 else 0)
+      = nReserved t + (if p = .reserved then 1 else 0) := by
+  have := countP_set_of (fun z : Caller => z.pc == .reserved) t.callers i x { x with pc := p } h
+  simpa [nReserved, setPc] using this
 
 /-! ### How the primitive updates change the number of holders -/
 
